@@ -54,6 +54,7 @@ func init() {
 		{"dial_dead", "dial to a service nobody listens on, to an unknown node, and ping failures", scDialDead},
 		{"ping_notice_race", "an unreachable notice for a ping arrives while SendPing returns for another reason (cancelled, answered)", scPingNoticeRace},
 		{"open_race_shutdown", "sockets opened and closed while the node shuts down and its notice broker is busy", scOpenRaceShutdown},
+		{"dial_dead_remote", "dials to a service nobody listens on at a reachable remote node, ended by the 'service unknown' notice (the caller's context stays alive)", scDialDeadRemote},
 		{"stream_close_kinds", "dial+accept, then every order of Close / CloseConnection on both ends; dialler registry must return to baseline", scStreamCloseKinds},
 	}
 }
@@ -861,4 +862,36 @@ func scOpenRaceShutdown(e *b1env) {
 	}
 	// the stopped nodes' sockets were never closed by their owner: only goroutines matter here
 	e.base["a"], e.base["b"] = regSize(e.a), regSize(e.b)
+}
+
+// scDialDeadRemote: the dial is ended by monitorUnreachable's cancel ('service unknown' from the remote node), not by
+// the caller: Dial() uses context.Background(), and a DialContext caller keeps its context alive long afterwards.
+func scDialDeadRemote(e *b1env) {
+	keep, keepCancel := context.WithCancel(context.Background())
+	defer keepCancel()
+	for it := 0; it < 8; it++ {
+		var derr error
+		var c *netceptor.Conn
+		ok := within(60*time.Second, func() {
+			if it%2 == 0 {
+				c, derr = e.b.N.Dial("a", "nosuch", nil)
+			} else {
+				c, derr = e.b.N.DialContext(keep, "a", "nosuch", nil)
+			}
+		})
+		if !ok {
+			e.res.inconclusive("%s: dial to an unbound remote service did not return within 60 s", e.name)
+
+			return
+		}
+		if derr == nil {
+			e.viol("dial-dead-succeeded", "dial to a service nobody listens on succeeded", nil)
+			_ = c.CloseConnection()
+		}
+		e.res.Evaluations++
+	}
+	// the release accounting runs while the callers' contexts are still alive
+	time.Sleep(300 * time.Millisecond)
+	e.checkReleased()
+	e.fatal = true // already accounted
 }
